@@ -25,11 +25,17 @@ for d in sorted(os.listdir(ROOT + '/seeded')):
         verdict, keys = 'MISSED', ''
     else:
         verdict, keys = 'inconclusive (exit %s)' % r.get('rc'), ''
+    others = sorted(k.split('@')[1] for k, v in res.items() if k.startswith(d + '@') and k != '%s@%s' % (d, prop)
+                    and v.get('rc') == 1)
+    if others:
+        verdict += '; caught by the check of ' + ', '.join(others)
     rows.append('| %s | %s | %s | %s | %s |' % (d, desc, verdict, r.get('tier', '') if r else '', keys[:110]))
-n_c = sum('caught' in x for x in rows)
+n_c = sum('| caught' in x for x in rows)
+n_o = sum('| caught' not in x and 'caught by the check of' in x for x in rows)
 table = ['| seed | file(s) changed | result of its property\'s check | tier | first violating keys |', '|---|---|---|---|---|'] + rows
 table.append('')
-table.append('%d of %d caught with a reproduced VIOLATION.' % (n_c, len(rows)))
+table.append('%d of %d caught with a reproduced VIOLATION by the check of the property they were written for; %d more by the '
+             'check of the property they actually break.' % (n_c, len(rows), n_o))
 s = open(ROOT + '/DESIGN.md').read()
 block = '<!-- seeded-table-begin -->\n' + '\n'.join(table) + '\n<!-- seeded-table-end -->'
 if '@@SEEDED_TABLE@@' in s:
